@@ -23,10 +23,17 @@ def oracle_cfg(cfg):
 
 
 def run_compile_model(chk, level, label="Compile"):
-    res = common.run_tlc("Compile", f"Compile_{level}.cfg", timeout=3000, coverage=False)
-    chk.add_tlc(res, f"{label}_{level} (exhaustive)")
+    if level != "quick":
+        # the deeper levels (1.8 million states and more) are checked for the invariants only; the scenarios replayed
+        # into the code come from the quick level (exporting every terminal state of the deeper ones is hundreds of MB)
+        deep = common.run_tlc("Compile", f"Compile_{level}.cfg", timeout=6000, coverage=False)
+        chk.add_tlc(deep, f"{label}_{level} (exhaustive, invariants only)")
+        if not deep.ok:
+            chk.tlc_violation(deep, f"Compile_{level}")
+    res = common.run_tlc("Compile", "Compile_quick.cfg", timeout=3000, coverage=False)
+    chk.add_tlc(res, f"{label}_quick (exhaustive, exported)")
     if not res.ok:
-        chk.tlc_violation(res, f"Compile_{level}")
+        chk.tlc_violation(res, "Compile_quick")
     # vacuity (coverage statistics triple the run time of this rational-arithmetic model): every branch of the
     # protocol must occur among the exported terminal states
     kinds = {o["kind"] for rec in res.records for g in rec["out"] for o in g}
